@@ -1,16 +1,16 @@
-int lfunc_0(void){ return 161; }
+int lfunc_0(void){ return 199; }
 void *addr_lfunc_0(void){ return (void*)lfunc_0; }
 extern int lfunc_0(void); void *l1_addr_lfunc_0(void){ return (void*)lfunc_0; }
-int ldata_1[2] = { 119 };
+int ldata_1[1] = { 194 };
 const void *addr_ldata_1(void){ return ldata_1; } int read_ldata_1(void){ return ldata_1[0]; }
 extern int ldata_1[]; const void *l1_addr_ldata_1(void){ return ldata_1; } int l1_read_ldata_1(void){ return ldata_1[0]; }
-#ifdef EIFUNC_FROM_LIB
-extern int eifunc_2(void); void *l1_addr_eifunc_2(void){ return (void*)eifunc_2; } int l1_call_eifunc_2(void){ return eifunc_2(); }
-#endif
-extern int efunc_3(void); void *l1_addr_efunc_3(void){ return (void*)efunc_3; } int l1_call_efunc_3(void){ return efunc_3(); }
-int real_lalias_4 = 8; extern int lalias_4 __attribute__((weak, alias("real_lalias_4")));
+int lfunc_2(void){ return 189; }
+void *addr_lfunc_2(void){ return (void*)lfunc_2; }
+extern int lfunc_2(void); void *l1_addr_lfunc_2(void){ return (void*)lfunc_2; }
+extern int l2func_3(void); void *l1_addr_l2func_3(void){ return (void*)l2func_3; }
+int real_lalias_4 = 156; extern int lalias_4 __attribute__((weak, alias("real_lalias_4")));
 void *addr_lalias_4(void){ return &real_lalias_4; } int read_lalias_4(void){ return real_lalias_4; } void write_lalias_4(int v){ real_lalias_4 = v; }
-int lalias_sw_5 = 141; extern __typeof(lalias_sw_5) w_lalias_sw_5 __attribute__((weak, alias("lalias_sw_5")));
+int lalias_sw_5 = 119; extern __typeof(lalias_sw_5) w_lalias_sw_5 __attribute__((weak, alias("lalias_sw_5")));
 void *addr_lalias_sw_5(void){ return (void*)&w_lalias_sw_5; } int read_lalias_sw_5(void){ return w_lalias_sw_5; } void write_lalias_sw_5(int v){ w_lalias_sw_5 = v; } void *waddr_lalias_sw_5(void){ return (void*)&w_lalias_sw_5; }
-int lalias_st_6[16]; extern __typeof(lalias_st_6) t_lalias_st_6 __attribute__((alias("lalias_st_6")));
+int lalias_st_6[4]; extern __typeof(lalias_st_6) t_lalias_st_6 __attribute__((alias("lalias_st_6")));
 void *addr_lalias_st_6(void){ return (void*)t_lalias_st_6; } int read_lalias_st_6(void){ return t_lalias_st_6[0]; } void write_lalias_st_6(int v){ t_lalias_st_6[0] = v; } void *waddr_lalias_st_6(void){ return (void*)t_lalias_st_6; }
